@@ -163,15 +163,61 @@ def draw_payload_edit(draw, mod, tname, depth):
             kinds += ["m_label"] * 2
         if depth < 2:
             kinds += ["embedded"] * 4
+        users = user_value_targets(mod) if depth == 0 else []
+        if users:
+            kinds += ["m_user"] * 3
         k = draw(st.sampled_from(kinds))
+        if k == "m_user":
+            # the value of an exposed user-defined controller, assigned under its own name or under the
+            # alias derived from its label; it is also what the mapped embedded controller receives
+            i, alias, tmi, tname, c = draw(st.sampled_from(users))
+            how = draw(st.sampled_from(["direct", "alias"])) if alias else "direct"
+            return ["m_user", i, alias if how == "alias" else None, draw(vs.edge_int(c.min, c.max)), tmi, c.name, c.min]
         if k == "m_count":
             return ["m_count", draw(st.one_of(st.sampled_from([0, 1, 27, 96]), st.integers(0, 96)))]
         if k == "m_map":
             return ["m_map", draw(st.integers(0, 95)), draw(u16), draw(u16)]
         if k == "m_label":
-            return ["m_label", draw(st.integers(0, min(n, 96) - 1)), draw(vs.text_no_nul(10))]
+            return ["m_label", draw(st.integers(0, min(n, 96) - 1)), draw(st.one_of(vs.text_no_nul(10), vs.text_no_nul(10), vs.long_text()))]
         return ["embedded"] + draw(draw_edit(mod.project, depth + 1).filter(lambda e: not live_propagation_hazard(mod, e)))
     raise AssertionError(tname)
+
+
+def user_value_targets(meta):
+    """[(index, alias or None, embedded module index, its type, controller spec)] for the exposed
+    user-defined controllers of a *loaded* MetaModule whose mapping names a ranged controller of an
+    existing embedded module.  (On constructed MetaModules, and for mappings next to each other,
+    assignments run into the library's inconsistent live propagation - see live_propagation_hazard.)"""
+    import re
+
+    if getattr(meta.project, "metamodule", None) is not None:
+        return []
+    spec = specmodel.by_mtype()
+    n = meta.user_defined_controllers
+    maps = [(mp.module, mp.controller) for mp in meta.mappings.values]
+    labels = [meta.user_defined[i].label for i in range(min(n, 96))]
+    out = []
+    for i in range(min(n, 96)):
+        mi, ci = maps[i]
+        if not (0 < mi < len(meta.project.modules)) or meta.project.modules[mi] is None:
+            continue
+        target = meta.project.modules[mi]
+        mt = spec.get(target.mtype)
+        if mt is None or mt.cls_name == "MetaModule" or ci >= len(mt.controllers):
+            continue
+        c = mt.controllers[ci]
+        if c.kind not in ("range", "compact"):
+            continue
+        if maps.count((mi, ci)) != 1 or (mi, ci + 1) in maps or (mi, ci - 1) in maps:
+            continue
+        t = labels[i]
+        alias = None
+        if t and re.fullmatch(r"[a-z]{2,12}", t) and labels.count(t) == 1 and not any(o and o != t and t in o.lower() for o in labels):
+            alias = "u_" + t
+            if alias in type(meta).__dict__ or alias in meta.__dict__:
+                alias = None
+        out.append((i, alias, mi, mt.cls_name, c))
+    return out
 
 
 def live_propagation_hazard(meta, inner):
@@ -344,6 +390,8 @@ def apply_module_edit(mod, e):
             mod.effect = Synth(build.make_module(e[2]))
         elif s == "effect":
             apply_module_edit(mod.effect.module, e[2:])
+        elif s == "m_user":
+            setattr(mod, e[3] or "user_defined_%d" % (e[2] + 1), e[4])
         elif s == "m_count":
             mod.user_defined_controllers = e[2]
         elif s == "m_map":
@@ -486,6 +534,9 @@ def module_paths(mod, e, base):
         return pb + "/effect", NOCHECK, []
     if s == "effect":
         return module_paths(mod.effect.module, e[2:], pb + "/effect/module")
+    if s == "m_user":
+        raw = e[4] - e[7] if e[7] < 0 else e[4]
+        return "%s/stored_values/%d" % (pb, e[2]), raw, ["%s/project/modules/%d/controllers/%s" % (pb, e[5], e[6])]
     if s == "m_count":
         return base + "/options/user_defined_controllers", e[2], [pb + "/" + x for x in ("count", "attached", "labels", "stored_values")] + [base + "/cmid/user_defined_"]
     if s == "m_map":
